@@ -43,6 +43,10 @@ structure Store where
 
 def wasmPage : Nat := 65536
 
+/-- the bulk memory instructions: memory.copy, memory.fill, memory.init of a data segment -/
+inductive BulkOp | copy | fill | init (seg : Nat)
+  deriving DecidableEq, Repr, Inhabited
+
 /-- numeric instructions: arity and semantics by opcode name -/
 structure NumSem where
   arity : String → Nat                      -- 1 or 2
@@ -68,6 +72,11 @@ structure NumSem where
   /-- memory.grow: new memory and the i32 result (old size in pages or -1); the same function on both sides
       (`wasmMemoryGrow`, whose own properties are C05/C18) -/
   grow : Mem → Nat → Mem × Val := fun m _ => (m, .i32 0xFFFFFFFF)
+  /-- memory.copy d s n / memory.fill d v n / memory.init seg d s n on the three i32 operands in push order: the
+      specification side (byte-by-byte reduction rules) and the emitted-C side (wasmMemoryCopy / wasmMemoryFill /
+      LOAD_DATA).  Lemmas/Bulk + Props/C05Sim prove the concrete instance. -/
+  bulkS : BulkOp → Mem → Nat → Nat → Nat → Out Mem := fun _ _ _ _ _ => .oof
+  bulkT : BulkOp → Mem → Nat → Nat → Nat → Out Mem := fun _ _ _ _ _ => .oof
 
 /-- the operand stack after a call: `n` arguments popped, the result (if any) pushed -/
 def afterCall (stk : List Val) (n : Nat) (rt : Option VT) (r : Option Val) (loc : Store) (normal : List Val → Store → α) (stuck : α) : α :=
@@ -91,6 +100,18 @@ def topN (n : Nat) (stk : List Val) : List Val := stk.drop (stk.length - n)
 
 /-- leaving a block by `br 0`: the stack below the block's entry height, plus the carried values -/
 def exitBlock (h : Nat) (bt : Option VT) (stk : List Val) : List Val := stk.take h ++ topN bt.toList.length stk
+
+/-- a bulk memory instruction on the wasm side: pops n, then the second, then the first operand -/
+def erunBulk (ns : NumSem) (op : BulkOp) (stk : List Val) (loc : Store) : ERes :=
+  if stk.length < 3 then .stuck else
+  let c := stk.getD (stk.length - 1) (.i32 0)
+  let b := stk.getD (stk.length - 2) (.i32 0)
+  let a := stk.getD (stk.length - 3) (.i32 0)
+  match ns.bulkS op loc.g.mem a.bits b.bits c.bits with
+  | .val m' => .normal (stk.take (stk.length - 3)) { loc with g := { loc.g with mem := m' } }
+  | .trap t => .trap t
+  | .oof => .oof
+  | _ => .stuck
 
 mutual
 def erunSeq (ns : NumSem) : Nat → List EInstr → List Val → Store → ERes
@@ -211,7 +232,10 @@ def erunInstr (ns : NumSem) : Nat → EInstr → List Val → Store → ERes
          | .trap t => .trap t
          | .oof => .oof
          | _ => .stuck)
-    | _ => .stuck                                   -- outside the core covered by the theorem
+    | .memoryCopy => erunBulk ns .copy stk loc
+    | .memoryFill => erunBulk ns .fill stk loc
+    | .memoryInit seg => erunBulk ns (.init seg) stk loc
+    | _ => .stuck                                   -- data.drop: w2c2 reports it as unimplemented and emits nothing
 end
 
 /-! ## target: the emitted C -/
@@ -243,6 +267,14 @@ def numSlots (opcode : String) (k : EmitKind) (t1 : VT) (i1 : Nat) (t0 : VT) (i0
   | .prefixBinary rt _ => (⟨rt, i1⟩, [⟨t1, i1⟩, ⟨t0, i0⟩])
   | .signedInfix _ => (⟨(lookupVT Gen.opcodeResultType opcode).getD .i32, i1⟩, [⟨t1, i1⟩, ⟨t0, i0⟩])
   | .shl | .shrS | .shrU => (⟨t1, i1⟩, [⟨t1, i1⟩, ⟨t0, i0⟩])
+
+/-- a bulk memory statement on the emitted-C side -/
+def execBulk (ns : NumSem) (op : BulkOp) (a b c : Slot) (σ : MSt) : MRes :=
+  match ns.bulkT op σ.store.g.mem (σ.get a).bits (σ.get b).bits (σ.get c).bits with
+  | .val m' => .normal { σ with store := { σ.store with g := { σ.store.g with mem := m' } } }
+  | .trap t => .trap t
+  | .oof => .oof
+  | _ => .stuck
 
 mutual
 def execSeq (ns : NumSem) : Nat → List MStmtC → MSt → MRes
@@ -328,7 +360,9 @@ def execStmt (ns : NumSem) : Nat → MStmtC → MSt → MRes
        | .trap t => .trap t
        | .oof => .oof
        | _ => .stuck)
-    | _ => .stuck                                   -- outside the core covered by the theorem
+    | .memCopy d s n => execBulk ns .copy d s n σ
+    | .memFill d v n => execBulk ns .fill d v n σ
+    | .memInit seg d s n => execBulk ns (.init seg) d s n σ
 end
 
 /-! ## the relation between the two states -/
